@@ -2,7 +2,7 @@
    Proofs/ScanGo.v.  Model: Model/Scan.v, dialects XGo and Go (the installed go/scanner). *)
 From Coq Require Import List NArith ZArith Bool.
 Import ListNotations.
-From V Require Import Base.Prelude Gen.ScanTok Model.Scan Model.ScanRel Proofs.ScanGo.
+From V Require Import Base.Prelude Gen.ScanTok Model.Scan Model.ScanRel Proofs.ScanGo Proofs.ScanGoEq.
 Open Scope Z_scope.
 
 (* every token of go/token carries the same number in token/token.go, and token.Lookup agrees *)
@@ -10,6 +10,29 @@ Theorem C16_codes_agree : forall t, code Go t <> -1 -> code XGo t = code Go t.
 Proof. exact codes_agree. Qed.
 Theorem C16_lookup_agree : forall lit, lookup XGo lit = lookup Go lit.
 Proof. exact lookup_agree. Qed.
+
+(* xgo_eq_go_on_go_lexemes.  [go_like ul ud cm src] (Model/ScanRel.v) runs the XGo dialect and checks
+   before every step (xg_plain) that it takes
+     - no extension branch: no '#' '$' '?' '->' '<>' '=>', no c"/py" string, and a number on which the
+       two scanNumber variants agree (no unit / 'r' suffix);
+     - none of the divergent branches: no '~'; no comment while a semicolon is pending (the trailing-
+       comment case) and only comments on which the two scanComment variants agree (line numbers
+       <= 1<<30); after '!' and after '...' outside parentheses the next token is on the same line and
+       is neither a comment nor an illegal character (safe_follow).
+   Then both dialects return the same result: the same tokens (kind, offset, literal, inserted
+   semicolons) and the same errors in the same order.  With C16_codes_agree the numeric token codes
+   are equal too.  Slightly stronger than needed in two places (stated, not hidden): a block comment
+   between two tokens of one line while a semicolon is pending, and a comment or illegal character
+   directly after '!' / '...', are excluded although the streams agree on them (they are covered by the
+   differential run of the check). *)
+Theorem C16_xgo_eq_go_on_go_lexemes : forall ul ud cm src,
+  go_like ul ud cm src = true -> run ul ud XGo cm src = run ul ud Go cm src.
+Proof. exact run_xgo_go. Qed.
+(* the kernel: one step from related states (same position; insertSemi equal, or set in XGo only
+   after '!' / '...' with a harmless next token) gives the same token and related states *)
+Theorem C16_step_xgo_eq_go : forall ul ud cm stX stG,
+  Inv ul stX stG -> xg_plain ul ud stX = true -> rel ul (step ul ud XGo cm stX) (step ul ud Go cm stG).
+Proof. exact step_xgo_go. Qed.
 
 (* scan_go_diverges: the Go lexemes on which the scanners differ - '~', a newline after '!'
    and after '...', an implicit semicolon around a trailing comment (both comment modes), and
@@ -37,13 +60,22 @@ Theorem C16_trailing_comment_streams : forall ul ud,
     = Some ([(4, 0, [97%N]); (2, 1, [47; 47]%N); (57, 3, [10%N]); (1, 3, [])], []).
 Proof. exact trailing_comment_streams. Qed.
 
-(* non-vacuity of the agreement: a Go source with numbers, strings, operators, a comment at a
-   line start and inserted semicolons gives equal streams *)
-Example C16_agree_example : forall ul ud,
-  let src := [47;47;99;10;120;32;58;61;32;48;120;49;70;32;43;32;34;97;92;110;34;10;102;40;41;10]%N in
-  stream_eq (stream ul ud XGo true src) (stream ul ud Go true src).
-Proof. intros ul ud src. apply stream_eqb_sound. vm_compute. reflexivity. Qed.
+(* non-vacuity: a Go source with a comment at a line start, :=, numbers (hex, float, imaginary),
+   strings with escapes, '!' and '...' followed by a token, parentheses, inserted semicolons, is go_like
+   in both comment modes (hence scanned identically); the divergence witnesses are not *)
+Definition ex_go : str :=
+  [47;47;99;10;120;32;58;61;32;48;120;49;70;32;43;32;34;97;92;110;34;10;
+   105;102;32;33;111;107;32;123;32;102;40;97;46;46;46;41;32;125;10;121;32;61;32;49;46;53;101;51;105;10]%N.
+Example C16_go_like_example : forall ul ud, go_like ul ud true ex_go = true /\ go_like ul ud false ex_go = true.
+Proof. intros ul ud. split; vm_compute; reflexivity. Qed.
+Example C16_not_go_like_examples : forall ul ud,
+  go_like ul ud true w_tilde = false /\ go_like ul ud true w_not_nl = false /\ go_like ul ud true w_ellipsis_nl = false
+  /\ go_like ul ud true w_trailing_comment = false /\ go_like ul ud true w_trailing_block = false
+  /\ go_like ul ud true w_line_big = false.
+Proof. intros ul ud. repeat split; vm_compute; reflexivity. Qed.
 
+Print Assumptions C16_xgo_eq_go_on_go_lexemes.
+Print Assumptions C16_step_xgo_eq_go.
 Print Assumptions C16_codes_agree.
 Print Assumptions C16_lookup_agree.
 Print Assumptions C16_scan_go_diverges.
